@@ -38,12 +38,13 @@ def gen_directive(r):
 
     def bs(a, b):
         """a <backslash-newline> b, the second part possibly split again (up to 4 physical lines)"""
-        out = [a + "\\"]
+        tail = lambda: r.pick(["", "", " ", "   "])      # blanks after the backslash are tolerated by the reader  # noqa: E731
+        out = [a + "\\" + tail()]
         words = b.split(" ")
         extra = r.n(0, 2)
         while extra and len(words) > 1:
             k = r.n(1, len(words) - 1)
-            out.append(" ".join(words[:k]) + " \\")
+            out.append(" ".join(words[:k]) + " \\" + tail())
             words = words[k:]
             extra -= 1
         out.append(" ".join(words))
@@ -152,7 +153,10 @@ def build(rnd, tier, flags):
                            "prev_kind": kinds[s - 1] if s > 0 else None})
     for at, dl in sorted(reversed(ins), key=lambda x: -x[0]):
         lines[at:at] = dl
-    case = {"base": lay.text, "with": "\n".join(lines) + "\n", "std": std, "keep_comments": keep,
+    eol = r.pick(["\n", "\n", "\n", "\r\n"])        # CR LF line ends: also after the backslash of a continued directive
+    if eol != "\n":
+        meta["crlf"] = True
+    case = {"base": eol.join(lay.lines) + eol, "with": eol.join(lines) + eol, "std": std, "keep_comments": keep,
             "directives": directives, "meta": meta}
     return case, progs.excluded_counts(g, lay)
 
